@@ -295,3 +295,63 @@ def compare(work, entries, shard=120):
         for r in ex.map(_shard, jobs):
             mism.extend(r)
     return sorted(mism)
+
+
+# ------------------------------------------------------------------ behavioural correspondence (coq/CExec.v)
+
+BEH = {"atom", "panic", "yield", "block", "if", "switch", "for", "break", "continue", "return"}
+
+
+def beh_eligible(body):
+    ok = [True]
+
+    def f(s, p):
+        if s["s"] not in BEH:
+            ok[0] = False
+    pgen.walk(body, f)
+    return ok[0]
+
+
+def cz(n):
+    return "(%d)%%Z" % n
+
+
+def beh_case(src, tape, budget, nops, ref_events, out_events):
+    ids = Ids()
+    s = cq_stmts(src, ids)
+    atoms, nums = [], []
+    for text, n in ids.d.items():
+        m = re.match(r"^tr\.([EP])\((\d+)\)$", text)
+        if m:
+            atoms.append("(%d, %s %s)" % (n, "DE" if m.group(1) == "E" else "DP", cz(int(m.group(2)))))
+            continue
+        m = re.match(r"^tr\.[CTV]\((\d+)\)$", text) or re.match(r"^(\d+)$", text)
+        if m:
+            nums.append("(%d, %s)" % (n, cz(int(m.group(1)))))
+            continue
+        raise Unknown("text " + text)
+    evl = lambda evs: "[" + "; ".join("(%s, %s, %s)" % (cz(a), cz(b), cz(c)) for a, b, c in evs) + "]"
+    return ("{| bc_src := %s; bc_atoms := [%s]; bc_ids := [%s]; bc_tape := [%s]; bc_budget := %d; bc_nops := %d;\n"
+            "     bc_ref_events := %s;\n     bc_out_events := %s |}"
+            % (s, "; ".join(atoms), "; ".join(nums), "; ".join(cz(t) for t in tape), budget, nops, evl(ref_events),
+               "None" if out_events is None else "(Some %s)" % evl(out_events)))
+
+
+def _bshard(args):
+    work, name, base, rows = args
+    text = ("From Coq Require Import List ZArith.\nFrom Verif Require Import Syntax Rewrite CExec.\nImport ListNotations.\n"
+            "Definition cases : list bcase := [\n%s\n].\nDefinition M := Eval vm_compute in bmismatches cases.\nPrint M.\n" % ";\n".join(rows))
+    rc, out = C.coq_eval(work, name, text)
+    if rc != 0:
+        raise RuntimeError("coqc failed on behavioural cases: " + out[-3000:])
+    m = re.search(r"M\s*=\s*(\[.*?\])\s*:\s*list", out, re.S)
+    return [(base + int(a), int(b)) for a, b in re.findall(r"\((\d+),\s*(\d+)\)", m.group(1))]
+
+
+def beh_compare(work, rows, shard=60):
+    jobs = [(work, "bcases_%d" % (i // shard), i, rows[i:i + shard]) for i in range(0, len(rows), shard)]
+    mism = []
+    with ThreadPoolExecutor(max_workers=12) as ex:
+        for r in ex.map(_bshard, jobs):
+            mism.extend(r)
+    return sorted(mism)
